@@ -254,6 +254,36 @@ def check_C03(chk):
                 if why:
                     chk.failing_input(why, {"build": fl, "scenario": l, "observed": r}, key="wake:%s:%s" % (fl, l))
             chk.coverage.setdefault("wake_scenarios", {})[fl] = len(sel)
+        # channels that start life in a one-shot server: once the client's handles are gone the accepted receiver must say so, whichever
+        # of accept / connect came first (a sender parked in a registry would keep the channel connected for ever)
+        slines, k = [], 0
+        for order in ("accept_first", "connect_first", "mid"):
+            for n in (1, 3):
+                k += 1
+                slines.append("id=%d order=%s client=thread sizes=%s" % (k, order, ",".join(["10", "5000", "10"][:n])))
+        nlines = ["id=%d op=noshow order=%s client=thread" % (50 + j, o) for j, o in enumerate(("accept_first", "connect_first"))]
+        for fl in ("default", "inprocess"):
+            recs, _, rc, err = C.run_harness(bins[fl], "server", slines + nlines, shim=False, timeout=300)
+            seen = 0
+            for r in recs:
+                why = None
+                if r.get("kind") == "server":
+                    seen += 1
+                    if not r["accepted"].get("ok"):
+                        why = "accept failed or blocked: %s" % r["accepted"].get("err")
+                    elif r["ended"] != "Disconnected":
+                        why = ("after the client had sent its %d messages and dropped every sender handle, the receiver returned by accept reported %s instead of "
+                               "'disconnected' (order %s)" % (r["n"], r["ended"], r["order"]))
+                elif r.get("kind") == "noshow":
+                    seen += 1
+                    if r["accept"] == "hang":
+                        why = "accept went on blocking although the only client had dropped its sender without sending (order %s)" % r["order"]
+                if why:
+                    chk.failing_input(why, {"build": fl, "observed": r}, key="srvdisc:%s:%s:%s" % (fl, r.get("order"), r.get("n")))
+            if seen < len(slines) + len(nlines):
+                chk.failing_input("one-shot server scenarios did not complete on the %s build (%d of %d): %s" % (fl, seen, len(slines) + len(nlines), err[-300:]),
+                                  {"build": fl}, key="srvdisc:%s:incomplete" % fl)
+            chk.coverage.setdefault("server_disconnect_scenarios", {})[fl] = seen
     chk.assumptions += ["that a thread blocked in recvmsg/poll is woken when the last sender reference disappears is kernel behaviour (modelled as: the receive step is enabled "
                         "and yields Disconnected); it is exercised by the wake driver under a watchdog"]
 
